@@ -110,7 +110,12 @@ def run(rep, tier, seed, model_ok=True, effort=1):
                            ("MAJOR.MINOR.PATCH", "1.2.3", []), ("vYYYY0M.BUILD[-TAG]", "v209901.1001", ["--set-version", "v202001.1001"]),
                            # equal under PEP 440, different as text
                            ("MAJOR.MINOR[.PATCH]", "1.2.0", ["--set-version", "1.2"]), ("MAJOR.MINOR[.PATCH]", "1.2", ["--set-version", "1.2.0"]),
-                           ("YYYY.0M[.PATCH]", "2026.10.0", []), ("MAJOR.MINOR.PATCH[PYTAG[NUM]]", "1.2.3rc0", ["--set-version", "1.2.3rc"])]:
+                           ("YYYY.0M[.PATCH]", "2026.10.0", []), ("MAJOR.MINOR.PATCH[PYTAG[NUM]]", "1.2.3rc0", ["--set-version", "1.2.3rc"]),
+                           # not a version of the pattern at all: empty, surrounded by whitespace, re-cased literal text
+                           ("MAJOR.MINOR.PATCH", "1.2.3", ["--set-version", ""]), ("MAJOR.MINOR.PATCH", "1.2.3", ["--patch", "--set-version", ""]),
+                           ("MAJOR.MINOR.PATCH", "1.2.3", ["--set-version", "1.2.4\n"]), ("MAJOR.MINOR.PATCH", "1.2.3", ["--set-version", "1.2.4 "]),
+                           ("vYYYY0M.BUILD[-TAG]", "v202401.1001-beta", ["--set-version", "v202402.1002-beta "]), ("vMAJOR.MINOR.PATCH", "v1.2.3", ["--set-version", "V1.2.4"]),
+                           ("vMAJOR.MINOR.PATCH[-TAG]", "v1.2.3-beta", ["--set-version", "v1.2.4-BETA"])]:
         for commit in (False, True):
             prj = project.TempProject(vp, cur, files={"a.txt": ["ver = {version}"]}, commit=commit, tag=commit, vcs="fakegit" if commit else None,
                                       vcs_cfg=dict(tags=[], status="", remote=None) if commit else None, hooks={"pre": "ok"} if commit else None)
